@@ -92,7 +92,7 @@ fn main() {
             .failures
             .iter()
             .map(|f| {
-                serde_json::json!({"property": f.property, "monitor": f.monitor, "case": f.case, "step": f.step, "what": f.what})
+                serde_json::json!({"property": f.property, "monitor": f.monitor, "case": f.case, "step": f.step, "what": f.what, "tag": f.tag})
             })
             .collect();
         let rep = serde_json::json!({
